@@ -23,6 +23,8 @@ func init() {
 			{ID: "C20.R8", Floor: 2, Run: typeParamReflection, Text: "reflection of type parameters: reflect.TypeOf is never applied to a value of bare type-parameter type (nil for interface type arguments, so distinct types collapse into one registry key); the idiom reflect.TypeOf((*T)(nil)).Elem() is followed by Elem()"},
 			{ID: "C20.R9", Floor: 10, Run: mapperStateless, Text: "the resource mapper holds no copy of the resource pointer (= C18.R12): Get returns the world's current pointer after removal or replacement through any route"},
 			{ID: "C20.R10", Floor: 4, Run: mapperDelegates, Text: "delegation (= C18.R13)"},
+			{ID: "C20.R11", Floor: 1, Run: resourceTableSizedOnce, Text: "the resource table is sized once (= C15.R8): resource ids registered after a Reset stay inside it"},
+			{ID: "C20.R12", Floor: 2, Run: typeArgPassedThrough, Text: "TypeID / ResourceTypeID hand the reflect.Type they were given to the registry unchanged (T and *T are different types)"},
 		},
 	})
 }
